@@ -81,6 +81,10 @@ static Register p1("c08.pairs.n2s2k2", "C08", "all ordered pairs of TA(2,{a:0,b:
 static Register p2("c08.pairs.n2s2k3", "C08", "all ordered pairs of TA(2,{a:0,b:0,g:2},<=3)", [](Env& e) { pairs(e, "c08.pairs.n2s2k3", 2, dom::Sigma2(), 3, 6); });
 static Register p3("c08.pairs.n2s3k2", "C08", "all ordered pairs of TA(2,{a:0,b:0,f:1,g:2},<=2)", [](Env& e) { pairs(e, "c08.pairs.n2s3k2", 2, dom::Sigma3(), 2, 4); });
 
+static Register s4("c08.single.ov.n2k4", "C08", "every automaton of TA(2,{a:0,a:2,b:0},<=4): one symbol name with two arities", [](Env& e) { single(e, "c08.single.ov.n2k4", 2, dom::SigmaOv(), 4); });
+static Register p7("c08.pairs.ov.n2k3", "C08", "all ordered pairs of TA(2,{a:0,a:2,b:0},<=3 per side, total <=5): one symbol name with two arities", [](Env& e) { pairs(e, "c08.pairs.ov.n2k3", 2, dom::SigmaOv(), 3, 5); });
+static Register p8("c08.pairs.ov1.n2k2", "C08", "all ordered pairs of TA(2,{a:0,a:1,a:2},<=2 per side): one symbol name with three arities", [](Env& e) { pairs(e, "c08.pairs.ov1.n2k2", 2, dom::SigmaOv1(), 2, 4); });
+static Register p9("c08.pairs.ov.trim.n2k3", "C08", "all ordered pairs of TRIMMED automata of TA(2,{a:0,b:0,a:2},<=3 per side): one symbol name with two arities", [](Env& e) { pairs(e, "c08.pairs.ov.trim.n2k3", 2, dom::SigmaOv(), 3, 6, true); });
 static Register p6("c08.pairs.trim.n2s2k3", "C08", "all ordered pairs of TRIMMED automata of TA(2,{a:0,b:0,g:2},<=3)", [](Env& e) { pairs(e, "c08.pairs.trim.n2s2k3", 2, dom::Sigma2(), 3, 6, true); });
 static Register p4("c08.pairs.trim.n3s3pk3", "C08", "all ordered pairs of TRIMMED automata of TA(3,{a:0,f:1,g:2},<=3): Union, UnionDisjointStates, Intersection in both BDD encodings", [](Env& e) { pairs(e, "c08.pairs.trim.n3s3pk3", 3, dom::Sigma3p(), 3, 6, true); });
 static Register p5("c08.pairs.trim.n3s3pk4", "C08", "all ordered pairs of TRIMMED automata of TA(3,{a:0,f:1,g:2},<=4) with <=7 rules in total", [](Env& e) { pairs(e, "c08.pairs.trim.n3s3pk4", 3, dom::Sigma3p(), 4, 7, true); });
